@@ -559,3 +559,7 @@ def check(run):
     from . import c01
     run.rules_run.append("R01c")
     run.rule(c01.r01c, run)
+    # round 8: shared helpers decided as tables (helper_table.py)
+    from . import helper_table as _ht
+    run.rules_run.append("R01g")
+    run.rule(_ht.r_apply, run)
